@@ -59,6 +59,8 @@ class Normal:
                 m = len(f)
                 for j in range(m):
                     k = key((f[j], f[(j + 1) % m]))
+                    if k[0] == k[1]:
+                        continue  # a face listing a vertex twice in a row: that "side" is a self-loop, and self-loops are dropped
                     if k not in eset:
                         eset.add(k)
                         sides.append(k)
